@@ -4,12 +4,50 @@ import ast
 from ..astutil import Defs, walk_no_nested, dotted
 from ..flow import path_conditions, cond_text, RAISE_GUARDS
 from ..model import Func
+from ..report import AnalysisError
+
+# the modules that hold the Obara-Saika / HGP recursions: a value "goes through the recursion" when a call into one of them is in its
+# backward slice
+KERNEL_MODULES = ("gbasis.integrals._moment_int", "gbasis.integrals._diff_operator_int", "gbasis.integrals._one_elec_int",
+                  "gbasis.integrals._two_elec_int")
 
 
-def must_pass_through(repo, R, f, allowed_shortcuts=(), depth=3):
+def _reaches_kernel(repo, g, depth=4, _seen=None):
+    """Does `g` (a gbasis function) call into a recursion module, directly or through other gbasis functions?"""
+    if g.module.name in KERNEL_MODULES:
+        return True
+    if depth == 0:
+        return False
+    _seen = _seen if _seen is not None else set()
+    if g in _seen:
+        return False
+    _seen.add(g)
+    for n in walk_no_nested(g.node):
+        if isinstance(n, ast.Call):
+            d = dotted(n.func)
+            r = repo.resolve_name(g.module, d, g) if d else None
+            if isinstance(r, Func) and r.module.name.startswith("gbasis.") and _reaches_kernel(repo, r, depth - 1, _seen):
+                return True
+    return False
+
+
+def _is_none_scope(t, pol, names):
+    """`name is not None` (taken) / `name is None` (not taken) for a parameter the property fixes to None: the path is outside its scope"""
+    if isinstance(t, ast.Compare) and len(t.ops) == 1 and isinstance(t.left, ast.Name) and t.left.id in names \
+            and isinstance(t.comparators[0], ast.Constant) and t.comparators[0].value is None:
+        return (isinstance(t.ops[0], ast.IsNot) and pol) or (isinstance(t.ops[0], ast.Is) and not pol)
+    return False
+
+
+def must_pass_through(repo, R, f, allowed_shortcuts=(), depth=3, none_scope=()):
     """In `f` and the private functions it calls: every `return` value must have a call that reaches the recursion in its
     backward slice, and must not sit under a data-dependent condition other than the documented ones.  A shortcut that
-    returns zeros (or anything else) without computing is reported."""
+    returns zeros (or anything else) without computing is reported.
+
+    none_scope: parameters the calling property takes as None (e.g. the screening tolerance for the exactness of the overlap); a
+    return that is only reached when such a parameter is given is outside the property's scope and is left to the property that
+    owns the parameter.  A return whose value is computed by a private helper that never reaches the recursion (a closed form)
+    cannot be decided by this rule: ANALYSIS-ERROR, not a violation."""
     seen = set()
     work = [f]
     while work:
@@ -21,33 +59,39 @@ def must_pass_through(repo, R, f, allowed_shortcuts=(), depth=3):
         D = Defs(fn)
         pc = path_conditions(fn)
         calls_gb = []
+        helper_calls = []
         for n in walk_no_nested(fn):
             if isinstance(n, ast.Call):
                 d = dotted(n.func)
                 r = repo.resolve_name(g.module, d, g) if d else None
                 if isinstance(r, Func) and r.module.name.startswith("gbasis.integrals") and r.name.startswith("_"):
-                    calls_gb.append((n, r))
-                    work.append(r)
+                    if _reaches_kernel(repo, r):
+                        calls_gb.append((n, r))
+                        work.append(r)
+                    else:
+                        helper_calls.append((n, r))
         rets = [n for n in walk_no_nested(fn) if isinstance(n, ast.Return) and n.value is not None]
         for r in rets:
             conds = [(t, pol) for t, pol in pc.get(id(r), ()) if not (id(t) in RAISE_GUARDS and not pol)]
+            if any(_is_none_scope(t, pol, none_scope) for t, pol in _conjuncts(conds)):
+                R.ok("MPT", g.site, "return " + ast.unparse(r.value)[:50] + " (only with " + "/".join(none_scope) + " given: out of scope)", nontrivial=False)
+                continue
+            # the documented predicate itself (taken) is an accepted reason for a shortcut, whatever else holds on that path
+            documented = any(pol and isinstance(t, ast.Call) and (dotted(t.func) or "").split(".")[-1] in allowed_shortcuts for t, pol in _conjuncts(conds))
             data_conds = []
             for t, pol in conds:
-                txt = ast.unparse(t)
-                # only the documented predicate itself is an accepted reason, not a larger condition that contains it
                 if isinstance(t, ast.Call) and (dotted(t.func) or "").split(".")[-1] in allowed_shortcuts:
                     continue
-                data_conds.append(("" if pol else "not ") + txt)
-            names = D.slice_names(r.value)
-            via_call = any(any(isinstance(x, ast.Name) and False for x in [n]) for n, _ in calls_gb)
+                data_conds.append(("" if pol else "not ") + ast.unparse(t))
             uses_kernel = bool(calls_gb) and any(_expr_reaches(D, r.value, n) for n, _ in calls_gb)
             if g is f or calls_gb:
-                ok = (uses_kernel or not calls_gb) and not (data_conds and not uses_kernel)
                 if calls_gb and not uses_kernel:
-                    skip = not data_conds and any(isinstance(t, ast.Call) and (dotted(t.func) or "").split(".")[-1] in allowed_shortcuts
-                                                  for t, pol in conds if pol)
-                    if skip:
+                    if documented:
                         continue
+                    via_helper = [h for n, h in helper_calls if _expr_reaches(D, r.value, n)]
+                    if via_helper:
+                        raise AnalysisError("MPT", f"{g.qualname} returns `{ast.unparse(r.value)[:60]}` computed by {via_helper[0].name}, which does not go "
+                                                   f"through the integral recursion (a closed form?): its values cannot be decided by this rule", g.where(r))
                     R.fail("MPT", g.site, "return " + ast.unparse(r.value)[:70],
                            f"{g.qualname} returns `{ast.unparse(r.value)[:60]}` without going through the integral recursion"
                            + (f" when [{' and '.join(data_conds)}]" if data_conds else "") + ": a data-dependent shortcut replaces the computed integrals",
@@ -55,6 +99,19 @@ def must_pass_through(repo, R, f, allowed_shortcuts=(), depth=3):
                 else:
                     R.ok("MPT", g.site, "return " + ast.unparse(r.value)[:50], nontrivial=bool(calls_gb))
     return len(seen)
+
+
+def _conjuncts(conds):
+    """path conditions with taken `a and b` tests split into their conjuncts (each then holds on the path)"""
+    out = []
+    for t, pol in conds:
+        if pol and isinstance(t, ast.BoolOp) and isinstance(t.op, ast.And):
+            out.extend((v, True) for v in t.values)
+        elif not pol and isinstance(t, ast.BoolOp) and isinstance(t.op, ast.Or):
+            out.extend((v, False) for v in t.values)
+        else:
+            out.append((t, pol))
+    return out
 
 
 def _expr_reaches(D, expr, call_node):
